@@ -1,7 +1,7 @@
 (* SelectMono.v — C04: the statement reader is monotone in its fuel, hence deterministic: two fuels on which it
    answers give the same abstract statement. *)
 From PV Require Import Base Crit gen.TermsTable Terms Page gen.QueryTable Query Parse lemmas.ParseMono.
-From PV Require Import C02Model C02Expected C02Frag gen.C04Table Select.
+From PV Require Import C02Model C02Frag gen.C04Table Select.
 From Coq Require Import Lia Arith.
 Local Open Scope list_scope.
 
